@@ -14,8 +14,13 @@ Definition is_edit (a : act) : bool := match a with AEdit _ _ _ => true | _ => f
 Definition lbcore (l : lbuf) := (map ltxt (lns l), hist l, hist_u l, useq l, useq_zero l, useq_last l).
 Definition wcore (s : st) := (lbcore (lb s), written s).
 
-(* the commands that are NOT plain edit sequences: u (undo), w w! (lbuf_saved bumps), ! (asks lbuf_modified first) *)
-Definition quiet_abbr (a : bytes) : bool := negb (is a [117]%N || (is a [119]%N || is a [119; 33]%N) || is a [33]%N).
+(* A class of actions P (which of bump / undo / save a command line may perform besides edit calls) and the command
+   lines that stay inside it -- a pure function of the bytes of the line:
+   u needs P AUndo; w w! need P ASave (lbuf_saved bumps); ! needs P ABump (it asks lbuf_modified first when writeany is off);
+   @ runs a register whose contents are not known statically and bumps: it needs everything *)
+Definition all_ok (P : act -> bool) : bool := P ABump && P AUndo && P ASave.
+Definition cmd_ok (P : act -> bool) (a : bytes) : bool :=
+  (negb (is a [117]%N) || P AUndo) && (negb (is a [119]%N || is a [119; 33]%N) || P ASave) && (negb (is a [33]%N) || P ABump).
 
 (* where ex_txt leaves the command line *)
 Definition txt_rest (src abbr : bytes) : bytes :=
@@ -24,9 +29,7 @@ Definition txt_rest (src abbr : bytes) : bytes :=
   | _, _ => src
   end.
 
-(* a command line all of whose commands (also inside the command lists of g/v, recursively) are quiet and
-   which contains no @: a pure function of the bytes of the line *)
-Fixpoint quiet_line (fuel : nat) (ln : bytes) : bool :=
+Fixpoint line_ok (P : act -> bool) (fuel : nat) (ln : bytes) : bool :=
   match fuel with
   | O => true
   | S f =>
@@ -41,11 +44,17 @@ Fixpoint quiet_line (fuel : nat) (ln : bytes) : bool :=
       let ln4 := txt_rest ln3 abbr in
       (match idx with
        | None => true
-       | Some a => if (hd0 a =? 103)%N || (hd0 a =? 118)%N then quiet_line f (snd (re_read arg))
-                   else if (hd0 a =? 64)%N then false else quiet_abbr a
-       end) && quiet_line f ln4
+       | Some a => if (hd0 a =? 103)%N || (hd0 a =? 118)%N then line_ok P f (snd (re_read arg))
+                   else if (hd0 a =? 64)%N then all_ok P else cmd_ok P a
+       end) && line_ok P f ln4
     end
   end.
+
+(* quiet: edit calls only (every command, also inside the command lists of g/v recursively, is one of a i c d k p pu r rs s y =
+   ec q!, nameless or unknown; no u w ! @);  with_w: edit calls and bumps (w and ! allowed);  any: everything *)
+Definition quiet_line : nat -> bytes -> bool := line_ok is_edit.
+Definition is_edit_or_bump (a : act) : bool := match a with AUndo => false | _ => true end.
+Definition nou_line : nat -> bytes -> bool := line_ok is_edit_or_bump.
 
 (* ---------------------------------------------------------------------------------------- *)
 (* what does not touch the core *)
@@ -174,36 +183,37 @@ Hypothesis Rel_save : forall s t, Rel s t ->
 
 Definition run_acts (t : T) (l : list act) : T := fold_left run1 l t.
 
-Definition Step (q : bool) (s s' : st) : Prop :=
-  forall t, Rel s t -> exists acts, Rel s' (run_acts t acts) /\ (q = true -> forallb is_edit acts = true).
+Section Class.
+Variable P : act -> bool.
+Hypothesis P_edit : forall t b e, P (AEdit t b e) = true.
 
-Lemma step_same q s s' : wcore s' = wcore s -> Step q s s'.
+Definition Step (s s' : st) : Prop :=
+  forall t, Rel s t -> exists acts, Rel s' (run_acts t acts) /\ forallb P acts = true.
+
+Lemma step_same s s' : wcore s' = wcore s -> Step s s'.
 Proof. intros E t H. exists []. split; [apply (Rel_same s s' t E H) | reflexivity]. Qed.
 
-Lemma step_refl q s : Step q s s.
+Lemma step_refl s : Step s s.
 Proof. apply step_same. reflexivity. Qed.
 
-Lemma step_trans q1 q2 s s' s'' : Step q1 s s' -> Step q2 s' s'' -> Step (q1 && q2) s s''.
+Lemma step_tr s s' s'' : Step s s' -> Step s' s'' -> Step s s''.
 Proof.
   intros H1 H2 t H. destruct (H1 t H) as (a1 & R1 & Q1). destruct (H2 _ R1) as (a2 & R2 & Q2).
   exists (a1 ++ a2). unfold run_acts in *. rewrite fold_left_app. split; [exact R2|].
-  intro Q. apply andb_prop in Q. destruct Q as [Qa Qb]. rewrite forallb_app, (Q1 Qa), (Q2 Qb). reflexivity.
+  rewrite forallb_app, Q1, Q2. reflexivity.
 Qed.
 
-Lemma step_tr q s s' s'' : Step q s s' -> Step q s' s'' -> Step q s s''.
-Proof. intros H1 H2. rewrite <- (andb_diag q). apply (step_trans _ _ _ _ _ H1 H2). Qed.
+Lemma step_edit s t b e : Step s (edit s t b e).
+Proof. intros u H. exists [AEdit t (Z.to_nat b) (Z.to_nat e)]. split; [apply Rel_edit, H | cbn; rewrite P_edit; reflexivity]. Qed.
 
-Lemma step_weak q s s' : Step q s s' -> Step false s s'.
-Proof. intros H t R. destruct (H t R) as (a & R1 & _). exists a. split; [exact R1 | discriminate]. Qed.
+Lemma step_bump s : P ABump = true -> Step s (bump s).
+Proof. intros PB u H. exists [ABump]. split; [apply Rel_bump, H | cbn; rewrite PB; reflexivity]. Qed.
 
-Lemma step_weak' q q' s s' : Step q s s' -> (q' = true -> q = true) -> Step q' s s'.
-Proof. intros H I t R. destruct (H t R) as (a & R1 & Q). exists a. split; [exact R1 | intro X; apply Q, I, X]. Qed.
-
-Lemma step_edit q s t b e : Step q s (edit s t b e).
-Proof. intros u H. exists [AEdit t (Z.to_nat b) (Z.to_nat e)]. split; [apply Rel_edit, H | reflexivity]. Qed.
-
-Lemma step_bump s : Step false s (bump s).
-Proof. intros u H. exists [ABump]. split; [apply Rel_bump, H | discriminate]. Qed.
+Lemma all_ok_any : all_ok P = true -> forall a, P a = true.
+Proof.
+  unfold all_ok. intro H. apply andb_prop in H. destruct H as [H H3]. apply andb_prop in H. destruct H as [H1 H2].
+  intros [t b e| | |]; auto.
+Qed.
 
 Section Cmds.
 Variable rvalid : bytes -> bool.
@@ -212,90 +222,90 @@ Variable filter : bytes -> bytes -> option bytes.
 Variable readfile : bytes -> option bytes.
 Variable curpath : bytes.
 
-Lemma step_region q loc s bad b e s1 : ex_region rvalid rfind loc s = (bad, b, e, s1) -> Step q s s1.
+Lemma step_region loc s bad b e s1 : ex_region rvalid rfind loc s = (bad, b, e, s1) -> Step s s1.
 Proof. intro E. apply step_same. pose proof (ex_region_wcore rvalid rfind loc s) as W. rewrite E in W. exact W. Qed.
 
-Ltac reg q loc s :=
+Ltac reg loc s :=
   let E := fresh "E" in
   destruct (ex_region rvalid rfind loc s) as [[[?bad ?b] ?e] ?s1] eqn:E;
-  let R := fresh "R" in pose proof (step_region q _ _ _ _ _ _ E) as R.
+  let R := fresh "R" in pose proof (step_region _ _ _ _ _ _ E) as R.
 
 Ltac chain R := eapply step_tr; [exact R|].
 Ltac same := apply step_same; reflexivity.
 
-Lemma step_insert q loc cmd txt s : Step q s (fst (ec_insert rvalid rfind loc cmd txt s)).
+Lemma step_insert loc cmd txt s : Step s (fst (ec_insert rvalid rfind loc cmd txt s)).
 Proof.
-  unfold ec_insert. reg q loc s. destruct (_ && _); [exact R|]. cbn [fst]. chain R.
+  unfold ec_insert. reg loc s. destruct (_ && _); [exact R|]. cbn [fst]. chain R.
   eapply step_tr; [apply step_edit|]. same.
 Qed.
 
-Lemma step_print q loc cmd s : Step q s (fst (ec_print rvalid rfind loc cmd s)).
+Lemma step_print loc cmd s : Step s (fst (ec_print rvalid rfind loc cmd s)).
 Proof.
-  unfold ec_print. destruct (_ && _); [apply step_refl|]. reg q loc s. destruct (_ || _); [exact R|]. cbn [fst]. chain R.
+  unfold ec_print. destruct (_ && _); [apply step_refl|]. reg loc s. destruct (_ || _); [exact R|]. cbn [fst]. chain R.
   apply step_same. change (wcore (set_xrow ?x ?r)) with (wcore x). apply print_lines_wcore.
 Qed.
 
-Lemma step_null q loc cmd s : Step q s (fst (ec_null rvalid rfind loc cmd s)).
+Lemma step_null loc cmd s : Step s (fst (ec_null rvalid rfind loc cmd s)).
 Proof. unfold ec_null. eapply step_tr; [|apply step_print]. same. Qed.
 
-Lemma step_delete q loc arg s : Step q s (fst (ec_delete rvalid rfind loc arg s)).
+Lemma step_delete loc arg s : Step s (fst (ec_delete rvalid rfind loc arg s)).
 Proof.
-  unfold ec_delete. reg q loc s. destruct (_ || _); [exact R|]. cbn [fst]. chain R.
-  eapply step_tr; [apply (step_same q s1 (ex_yank s1 (REG arg) b e)); reflexivity|].
+  unfold ec_delete. reg loc s. destruct (_ || _); [exact R|]. cbn [fst]. chain R.
+  eapply step_tr; [apply (step_same s1 (ex_yank s1 (REG arg) b e)); reflexivity|].
   eapply step_tr; [apply step_edit|]. same.
 Qed.
 
-Lemma step_yank q loc arg s : Step q s (fst (ec_yank rvalid rfind loc arg s)).
-Proof. unfold ec_yank. reg q loc s. destruct (_ || _); [exact R|]. cbn [fst]. chain R. same. Qed.
+Lemma step_yank loc arg s : Step s (fst (ec_yank rvalid rfind loc arg s)).
+Proof. unfold ec_yank. reg loc s. destruct (_ || _); [exact R|]. cbn [fst]. chain R. same. Qed.
 
-Lemma step_put q loc arg s : Step q s (fst (ec_put rvalid rfind loc arg s)).
+Lemma step_put loc arg s : Step s (fst (ec_put rvalid rfind loc arg s)).
 Proof.
   unfold ec_put. destruct (reg_special _); [same|]. destruct (reg_get s _); [|apply step_refl].
-  reg q loc s. destruct (_ && _); [exact R|]. cbn [fst]. chain R. eapply step_tr; [apply step_edit|]. same.
+  reg loc s. destruct (_ && _); [exact R|]. cbn [fst]. chain R. eapply step_tr; [apply step_edit|]. same.
 Qed.
 
-Lemma step_lnum q loc s : Step q s (fst (ec_lnum rvalid rfind loc s)).
-Proof. unfold ec_lnum. reg q loc s. destruct (_ || _); [exact R|]. cbn [fst]. chain R. same. Qed.
+Lemma step_lnum loc s : Step s (fst (ec_lnum rvalid rfind loc s)).
+Proof. unfold ec_lnum. reg loc s. destruct (_ || _); [exact R|]. cbn [fst]. chain R. same. Qed.
 
-Lemma step_mark q loc arg s : Step q s (fst (ec_mark rvalid rfind loc arg s)).
+Lemma step_mark loc arg s : Step s (fst (ec_mark rvalid rfind loc arg s)).
 Proof.
-  unfold ec_mark. reg q loc s. destruct (_ || _); [exact R|]. cbn [fst]. chain R.
+  unfold ec_mark. reg loc s. destruct (_ || _); [exact R|]. cbn [fst]. chain R.
   apply step_same. unfold wcore. cbn [lb set_lb written]. rewrite lbcore_mark. reflexivity.
 Qed.
 
-Lemma step_read q loc arg s : Step q s (fst (ec_read rvalid rfind readfile curpath loc arg s)).
+Lemma step_read loc arg s : Step s (fst (ec_read rvalid rfind readfile curpath loc arg s)).
 Proof.
-  unfold ec_read. destruct (_ || _); [same|]. reg q loc s. destruct (_ && _); [exact R|].
+  unfold ec_read. destruct (_ || _); [same|]. reg loc s. destruct (_ && _); [exact R|].
   destruct (readfile _); [|cbn [fst]; chain R; same]. cbn [fst]. chain R. eapply step_tr; [apply step_edit|]. same.
 Qed.
 
-Lemma step_undo s : Step false s (fst (ec_undo s)).
+Lemma step_undo s : P AUndo = true -> Step s (fst (ec_undo s)).
 Proof.
-  unfold ec_undo. intros t H. exists [AUndo]. split; [|discriminate].
+  intro PU. unfold ec_undo. intros t H. exists [AUndo]. split; [|cbn; rewrite PU; reflexivity].
   pose proof (Rel_undo s t H) as U. destruct (lbuf_undo (lb s)) as [l r]. exact U.
 Qed.
 
-Lemma step_write loc arg s : Step false s (fst (ec_write rvalid rfind loc arg s)).
+Lemma step_write loc arg s : P ASave = true -> Step s (fst (ec_write rvalid rfind loc arg s)).
 Proof.
-  unfold ec_write. destruct loc; [|same]. destruct arg; [|same]. reg false (@nil N) s. destruct bad; [exact R|]. cbn [fst]. chain R.
-  intros t H. exists [ASave]. split; [|discriminate].
+  intro PS. unfold ec_write. destruct loc; [|same]. destruct arg; [|same]. reg (@nil N) s. destruct bad; [exact R|]. cbn [fst]. chain R.
+  intros t H. exists [ASave]. split; [|cbn; rewrite PS; reflexivity].
   refine (Rel_same _ _ _ _ (Rel_save s1 t H)). reflexivity.
 Qed.
 
-Lemma step_exec loc arg s : Step false s (fst (ec_exec rvalid rfind filter loc arg s)).
+Lemma step_exec loc arg s : P ABump = true -> Step s (fst (ec_exec rvalid rfind filter loc arg s)).
 Proof.
-  unfold ec_exec.
-  assert (H0 : Step false s (fst (if xwa s then (s, false) else bufs_modified s))).
+  intro PB. unfold ec_exec.
+  assert (H0 : Step s (fst (if xwa s then (s, false) else bufs_modified s))).
   { destruct (xwa s); [apply step_refl|]. unfold bufs_modified.
-    pose proof (step_bump s) as B. unfold bump in B. destruct (lbuf_modified (lb s)) as [l m]. cbn [fst] in B.
+    pose proof (step_bump s PB) as B. unfold bump in B. destruct (lbuf_modified (lb s)) as [l m]. cbn [fst] in B.
     destruct m; cbn [fst]; [eapply step_tr; [exact B|]; same | exact B]. }
   destruct (if xwa s then (s, false) else bufs_modified s) as [s0 m]. cbn [fst] in H0.
   destruct m; [exact H0|]. destruct (negb _); [cbn [fst]; chain H0; same|]. destruct loc as [|c loc]; [cbn [fst]; chain H0; same|].
-  reg false (c :: loc) s0. destruct (_ || _); [cbn [fst]; chain H0; exact R|]. destruct (filter _ _); cbn [fst]; chain H0; [|exact R].
+  reg (c :: loc) s0. destruct (_ || _); [cbn [fst]; chain H0; exact R|]. destruct (filter _ _); cbn [fst]; chain H0; [|exact R].
   chain R. apply step_edit.
 Qed.
 
-Lemma step_subst_rows q : forall n i pat rep g s, Step q s (subst_rows rfind n i pat rep g s).
+Lemma step_subst_rows : forall n i pat rep g s, Step s (subst_rows rfind n i pat rep g s).
 Proof.
   induction n as [|n IH]; intros i pat rep g s; [apply step_refl|]. cbn [subst_rows].
   eapply step_tr; [|apply IH].
@@ -303,20 +313,20 @@ Proof.
   apply step_edit.
 Qed.
 
-Lemma step_substitute q loc arg s : Step q s (fst (ec_substitute rvalid rfind loc arg s)).
+Lemma step_substitute loc arg s : Step s (fst (ec_substitute rvalid rfind loc arg s)).
 Proof.
-  unfold ec_substitute. reg q loc s. destruct bad; [exact R|].
+  unfold ec_substitute. reg loc s. destruct bad; [exact R|].
   destruct (re_read arg) as [pat rest].
-  assert (H2 : Step q s (kwdset_if s1 pat 1)) by (chain R; apply step_same; apply kwdset_if_wcore).
+  assert (H2 : Step s (kwdset_if s1 pat 1)) by (chain R; apply step_same; apply kwdset_if_wcore).
   destruct pat as [p|]; [|cbn [fst]; chain H2; same]. destruct rest as [|c rest]; [cbn [fst]; chain H2; same|].
   destruct (re_read _) as [rep flags]. destruct (negb _); [cbn [fst]; chain H2; same|]. destruct (kwddir _ =? 0); [exact H2|].
   destruct (negb _); [exact H2|]. cbn [fst]. chain H2. apply step_subst_rows.
 Qed.
 
-Lemma step_simple a loc cmd arg txt s :
-  Step (quiet_abbr a) s (fst (ex_simple rvalid rfind filter readfile curpath a loc cmd arg txt s)).
+Lemma step_simple a loc cmd arg txt s : cmd_ok P a = true ->
+  Step s (fst (ex_simple rvalid rfind filter readfile curpath a loc cmd arg txt s)).
 Proof.
-  unfold ex_simple, quiet_abbr.
+  unfold ex_simple, cmd_ok. intro OK. apply andb_prop in OK. destruct OK as [OK O3]. apply andb_prop in OK. destruct OK as [O1 O2].
   destruct (is a [97]%N || is a [105]%N || is a [99]%N); [apply step_insert|].
   destruct (is a [100]%N); [apply step_delete|].
   destruct (is a [107]%N); [apply step_mark|].
@@ -326,10 +336,10 @@ Proof.
   destruct (is a [114]%N); [apply step_read|].
   destruct (is a [114; 115]%N); [unfold ec_rs; destruct txt; same|].
   destruct (is a [115]%N); [apply step_substitute|].
-  destruct (is a [117]%N); [apply step_undo|]. cbn [orb].
-  destruct (is a [119]%N || is a [119; 33]%N); [apply step_write|]. cbn [orb].
+  destruct (is a [117]%N); [apply step_undo; exact O1|].
+  destruct (is a [119]%N || is a [119; 33]%N); [apply step_write; exact O2|].
   destruct (is a [121]%N); [apply step_yank|].
-  destruct (is a [33]%N); [apply step_exec|]. cbn [negb].
+  destruct (is a [33]%N); [apply step_exec; exact O3|].
   destruct (is a [61]%N); [apply step_lnum|].
   destruct (is a [101; 99]%N); [same|].
   destruct (is a []); [apply step_null|].
@@ -339,13 +349,13 @@ Qed.
 Section Rec.
 Variable exec : bytes -> st -> st * Z.
 
-Lemma step_glob_loop qb body : (forall s0, Step qb s0 (fst (exec body s0))) ->
-  forall fuel i pat not dep s, Step qb s (glob_loop rfind exec fuel i pat body not dep s).
+Lemma step_glob_loop body : (forall s0, Step s0 (fst (exec body s0))) ->
+  forall fuel i pat not dep s, Step s (glob_loop rfind exec fuel i pat body not dep s).
 Proof.
   intro Hx. induction fuel as [|f IH]; intros i pat not dep s; [same|]. cbn [glob_loop].
   destruct (nth_error (lns (lb s)) i) as [x|]; [|apply step_refl].
   set (run := Bool.eqb _ not).
-  assert (H1 : Step qb s (fst (if run then exec body (set_xrow s (Z.of_nat i)) else (s, 0)))).
+  assert (H1 : Step s (fst (if run then exec body (set_xrow s (Z.of_nat i)) else (s, 0)))).
   { destruct run; [eapply step_tr; [|apply Hx]; same | apply step_refl]. }
   destruct (if run then exec body (set_xrow s (Z.of_nat i)) else (s, 0)) as [s1 r]. cbn [fst] in H1.
   destruct (run && negb (r =? 0)); [exact H1|].
@@ -355,62 +365,82 @@ Proof.
   chain H1. eapply step_tr; [|apply IH]. apply step_same. unfold wcore. cbn [lb set_lb written]. rewrite H2. reflexivity.
 Qed.
 
-Lemma step_glob qb fuel loc cmd arg s : (forall s0, Step qb s0 (fst (exec (snd (re_read arg)) s0))) ->
-  Step qb s (fst (ec_glob rvalid rfind exec fuel loc cmd arg s)).
+Lemma step_glob fuel loc cmd arg s : (forall s0, Step s0 (fst (exec (snd (re_read arg)) s0))) ->
+  Step s (fst (ec_glob rvalid rfind exec fuel loc cmd arg s)).
 Proof.
   intro Hx. unfold ec_glob.
   set (loc' := match loc, xgdep s with [], O => [37%N] | _, _ => loc end).
-  reg qb loc' s. destruct (_ || _); [exact R|].
+  reg loc' s. destruct (_ || _); [exact R|].
   destruct (re_read arg) as [pat body]. cbn [snd] in Hx.
-  assert (H2 : Step qb s (kwdset_if s1 pat 1)) by (chain R; apply step_same; apply kwdset_if_wcore).
+  assert (H2 : Step s (kwdset_if s1 pat 1)) by (chain R; apply step_same; apply kwdset_if_wcore).
   destruct (kwddir _ =? 0); [exact H2|]. destruct (negb _); [exact H2|]. cbn [fst]. chain H2.
-  match goal with |- Step _ _ (set_gdep (set_lb ?s5 (globclear ?n 0%nat ?dp (lb ?s5'))) ?d) =>
-    eapply (step_tr _ _ s5); [|apply step_same; unfold wcore; cbn [lb set_lb set_gdep written]; rewrite lbcore_globclear; reflexivity] end.
+  match goal with |- Step _ (set_gdep (set_lb ?s5 (globclear ?n 0%nat ?dp (lb ?s5'))) ?d) =>
+    eapply (step_tr _ s5); [|apply step_same; unfold wcore; cbn [lb set_lb set_gdep written]; rewrite lbcore_globclear; reflexivity] end.
   eapply step_tr; [|apply step_glob_loop; exact Hx].
   apply step_same. unfold wcore. cbn [lb set_lb set_gdep written]. rewrite lbcore_globset_range. reflexivity.
 Qed.
 
-Lemma step_at loc arg s : (forall ln s0, Step false s0 (fst (exec ln s0))) ->
-  Step false s (fst (ec_at rvalid rfind exec loc arg s)).
+Lemma step_at loc arg s : P ABump = true -> (forall ln s0, Step s0 (fst (exec ln s0))) ->
+  Step s (fst (ec_at rvalid rfind exec loc arg s)).
 Proof.
-  intro Hx. unfold ec_at. destruct (reg_special _); [same|]. destruct (reg_get s _) as [buf|]; [|apply step_refl].
-  reg false loc s. destruct (_ || _); [exact R|].
+  intros PB Hx. unfold ec_at. destruct (reg_special _); [same|]. destruct (reg_get s _) as [buf|]; [|apply step_refl].
+  reg loc s. destruct (_ || _); [exact R|].
   pose proof (Hx buf (set_xrow s1 b)) as H2. destruct (exec buf (set_xrow s1 b)) as [s2 r]. cbn [fst] in *.
-  chain R. eapply step_tr; [|apply step_bump]. eapply step_tr; [|exact H2]. same.
+  chain R. eapply step_tr; [|apply step_bump, PB]. eapply step_tr; [|exact H2]. same.
 Qed.
 End Rec.
 
-Theorem step_ex_exec : forall fuel ret ln s,
-  Step (quiet_line fuel ln) s (fst (ex_exec rvalid rfind filter readfile curpath fuel ret ln s)).
+Lemma line_ok_all : all_ok P = true -> forall fuel ln, line_ok P fuel ln = true.
 Proof.
-  induction fuel as [|f IH]; intros ret ln s; [same|]. cbn [ex_exec quiet_line].
-  destruct ln as [|c ln]; [apply step_refl|].
+  intro A. pose proof (all_ok_any A) as Any. induction fuel as [|f IH]; intro ln; [reflexivity|]. cbn [line_ok].
+  destruct ln as [|c ln]; [reflexivity|].
   destruct (ex_loc (c :: ln)) as [ln1 loc]. destruct (ex_cmd ln1) as [ln2 cmd].
   set (abbr := match ex_idx cmd with Some a => a | None => _ end).
+  destruct (ex_arg ln2 abbr) as [ln3 arg]. rewrite (IH (txt_rest ln3 abbr)), andb_true_r.
+  destruct (ex_idx cmd) as [a|]; [|reflexivity].
+  destruct ((hd0 a =? 103)%N || (hd0 a =? 118)%N); [apply IH|]. destruct (hd0 a =? 64)%N; [exact A|].
+  unfold cmd_ok. rewrite !Any, !orb_true_r. reflexivity.
+Qed.
+
+Theorem step_ex_exec : forall fuel ret ln s, line_ok P fuel ln = true ->
+  Step s (fst (ex_exec rvalid rfind filter readfile curpath fuel ret ln s)).
+Proof.
+  induction fuel as [|f IH]; intros ret ln s OK; [same|]. cbn [ex_exec line_ok] in *.
+  destruct ln as [|c ln]; [apply step_refl|].
+  destruct (ex_loc (c :: ln)) as [ln1 loc]. destruct (ex_cmd ln1) as [ln2 cmd].
+  set (abbr := match ex_idx cmd with Some a => a | None => _ end) in *.
   destruct (ex_arg ln2 abbr) as [ln3 arg].
   pose proof (ex_txt_rest ln3 abbr s) as TR. pose proof (ex_txt_wcore ln3 abbr s) as TW.
-  destruct (ex_txt ln3 abbr s) as [[ln4 txt] s1]. cbn [fst snd] in TR, TW. rewrite <- TR.
-  set (qc := match ex_idx cmd with Some a => _ | None => true end).
-  match goal with |- Step _ _ (fst (let '(s2, ret2) := ?m in _)) => assert (M : Step qc s (fst m)) end.
-  { eapply step_tr; [apply (step_same qc s s1 TW)|]. unfold qc. destruct (ex_idx cmd) as [a|].
-    - destruct ((hd0 a =? 103)%N || (hd0 a =? 118)%N); [apply step_glob; intro s0; apply IH|].
-      destruct (hd0 a =? 64)%N; [apply step_at; intros l0 s0; eapply step_weak; apply IH|].
-      apply step_simple.
+  destruct (ex_txt ln3 abbr s) as [[ln4 txt] s1]. cbn [fst snd] in TR, TW. rewrite <- TR in OK.
+  apply andb_prop in OK. destruct OK as [OK1 OK2].
+  match goal with |- Step _ (fst (let '(s2, ret2) := ?m in _)) => assert (M : Step s (fst m)) end.
+  { eapply step_tr; [apply (step_same s s1 TW)|]. destruct (ex_idx cmd) as [a|].
+    - destruct ((hd0 a =? 103)%N || (hd0 a =? 118)%N); [apply step_glob; intro s0; apply IH, OK1|].
+      destruct (hd0 a =? 64)%N.
+      + pose proof (all_ok_any OK1) as Any. apply step_at; [apply Any|]. intros l0 s0. apply IH, line_ok_all, OK1.
+      + apply step_simple, OK1.
     - destruct (is_other cmd); same. }
-  match goal with |- Step _ _ (fst (let '(s2, ret2) := ?m in _)) => destruct m as [s2 ret2] end. cbn [fst] in M.
-  eapply step_trans; [exact M | apply IH].
+  match goal with |- Step _ (fst (let '(s2, ret2) := ?m in _)) => destruct m as [s2 ret2] end. cbn [fst] in M.
+  eapply step_tr; [exact M | apply IH, OK2].
 Qed.
 
 (* ex_command = the commands of the line, then ONE closing bump *)
-Theorem step_ex_command fuel ln s t : Rel s t ->
+Theorem step_ex_command fuel ln s t : line_ok P fuel ln = true -> Rel s t ->
   exists acts, Rel (fst (ex_command rvalid rfind filter readfile curpath fuel ln s)) (run_acts t (acts ++ [ABump])) /\
-               (quiet_line fuel ln = true -> forallb is_edit acts = true).
+               forallb P acts = true.
 Proof.
-  intro H. unfold ex_command.
-  destruct (step_ex_exec fuel 0 ln s t H) as (acts & R1 & Q).
+  intros OK H. unfold ex_command.
+  destruct (step_ex_exec fuel 0 ln s OK t H) as (acts & R1 & Q).
   destruct (ex_exec rvalid rfind filter readfile curpath fuel 0 ln s) as [s1 r]. cbn [fst] in *.
   exists acts. split; [|exact Q]. unfold run_acts in *. rewrite fold_left_app. cbn [fold_left]. apply Rel_bump. exact R1.
 Qed.
 
 End Cmds.
+End Class.
+
+(* every line is inside the class of all actions *)
+Definition any_act (a : act) : bool := true.
+Lemma line_ok_any fuel ln : line_ok any_act fuel ln = true.
+Proof. apply line_ok_all; [intros; reflexivity | reflexivity]. Qed.
+
 End Sim.
